@@ -114,25 +114,25 @@ package vm
 // inner loops of the call / collection opcodes, keyed by the opcode of the enclosing iteration
 //@   loop OpCall modifies field(vm.stack) obj(in)
 //@   loop OpCall invariant[galloc] galloc() == pre(galloc())
-//@   loop OpCall invariant[stack] obj(vm.stack) == pre(obj(vm.stack)) && len(vm.stack) >= 0
+//@   loop OpCall invariant[stack] base(vm.stack) == pre(base(vm.stack)) && len(vm.stack) >= 0
 //@   loop OpCallFast modifies field(vm.stack) obj(in)
 //@   loop OpCallFast invariant[galloc] galloc() == pre(galloc())
-//@   loop OpCallFast invariant[stack] obj(vm.stack) == pre(obj(vm.stack)) && len(vm.stack) >= 0
+//@   loop OpCallFast invariant[stack] base(vm.stack) == pre(base(vm.stack)) && len(vm.stack) >= 0
 //@   loop OpMethod modifies field(vm.stack) obj(in)
 //@   loop OpMethod invariant[galloc] galloc() == pre(galloc())
-//@   loop OpMethod invariant[stack] obj(vm.stack) == pre(obj(vm.stack)) && len(vm.stack) >= 0
+//@   loop OpMethod invariant[stack] base(vm.stack) == pre(base(vm.stack)) && len(vm.stack) >= 0
 //@   loop OpMethodNilSafe modifies field(vm.stack) obj(in)
 //@   loop OpMethodNilSafe invariant[galloc] galloc() == pre(galloc())
-//@   loop OpMethodNilSafe invariant[stack] obj(vm.stack) == pre(obj(vm.stack)) && len(vm.stack) >= 0
+//@   loop OpMethodNilSafe invariant[stack] base(vm.stack) == pre(base(vm.stack)) && len(vm.stack) >= 0
 //@   loop OpArray modifies field(vm.stack) obj(array)
 //@   loop OpArray invariant[galloc] galloc() == pre(galloc())
-//@   loop OpArray invariant[stack] obj(vm.stack) == pre(obj(vm.stack)) && len(vm.stack) >= 0
+//@   loop OpArray invariant[stack] base(vm.stack) == pre(base(vm.stack)) && len(vm.stack) >= 0
 //@   loop OpMap modifies field(vm.stack) obj(m)
 //@   loop OpMap invariant[galloc] galloc() == pre(galloc()) + (size - 1 - i)
 //@   loop OpMap invariant[i] i >= -1 && i < size
 //@   loop OpMap invariant[pops] len(vm.stack) == pre(len(vm.stack)) - 2*(size-1-i)
 //@   loop OpMap invariant[count] size-1-i >= 0 && size-1-i <= 70368744177664
-//@   loop OpMap invariant[stack] obj(vm.stack) == pre(obj(vm.stack)) && len(vm.stack) >= 0
+//@   loop OpMap invariant[stack] base(vm.stack) == pre(base(vm.stack)) && len(vm.stack) >= 0
 //@   case OpMap: assume-compiled size >= 0
 //@   case OpCallFast: exempt-alloc the argument vector of a variadic call is not a collection built by the expression
 //@   case OpRange: on-budget-panic (max - min + 1 > 0 ==> galloc() + (max - min + 1) >= vm.limit) && (max - min + 1 <= 0 ==> galloc() >= vm.limit)
